@@ -98,16 +98,18 @@ def in_envelope(rec):
     for c in ev.get("funds", []) + ([ev["coin"]] if "coin" in ev else []):
         if int(c["amount"]) > E27:
             return False
-    raw = b["contract"].get("state")
-    if st is None:
-        # the State query itself fails/panics: rate outside the envelope (N = 0 < L) or worse
+    raw = b["contract"].get("raw_totals")
+    if raw is None:
         return False
-    n, l = int(st["total_native_token"]), int(st["total_liquid_stake_token"])
-    if n > E27 or l > E27 or int(st["total_fees"]) > E27 or int(st["total_reward_amount"]) > 10 ** 30:
+    _ = st
+    n, l = int(raw["total_native_token"]), int(raw["total_liquid_stake_token"])
+    if n > E27 or l > E27 or int(raw["total_fees"]) > E27 or int(raw["total_reward_amount"]) > 10 ** 30:
         return False
     if l > 0 and not (l <= 1000 * n and n <= 1000 * l):
         return False
     m = ev.get("msg", {})
+    if variant(m) == "receive_rewards" and "coin" in ev and l > 0 and n + int(ev["coin"]["amount"]) > 1000 * l:
+        return False    # the reward itself would push the rate out of the envelope
     if variant(m) == "resume_contract":
         r = m["resume_contract"]
         try:
@@ -145,27 +147,32 @@ def m_no_panic(hist, rec):
 
 
 def query_in_envelope(dump):
+    """queries are inside the C16 envelope when the stored totals are (rate within [10^-3, 10^3])"""
     c = cfg(dump)
-    if c is None:
+    rt = dump["contract"].get("raw_totals")
+    if c is None or rt is None:
         return False
-    # state query: rate inside the envelope is judged from the raw batches/state where possible
+    n, l = int(rt["total_native_token"]), int(rt["total_liquid_stake_token"])
+    if n > E27 or l > E27:
+        return False
+    if l > 0 and not (l <= 1000 * n and n <= 1000 * l):
+        return False
     return True
 
 
 def classify_panic(text):
+    """stable name of a panic site: `<file>.rs:<line>` of the panic location, with the three
+    families that have several call sites folded into one name"""
+    import re
     t = text or ""
-    if "A05" in t or ("Option::unwrap()" in t and "execute.rs:10" in t):
+    if re.fullmatch(r"A\d+\w*(:\w+)?", t):
+        return "model:" + t            # a model-side site id (model-led runs compare outcome only)
+    m = re.search(r"([A-Za-z0-9_\-]+/src/[A-Za-z0-9_/]+\.rs):(\d+)", t)
+    loc = "%s:%s" % (m.group(1).split("/src/")[-1], m.group(2)) if m else t[-50:]
+    crate = m.group(1).split("/src/")[0] if m else ""
+    if "Option::unwrap()" in t and loc.startswith("execute.rs:10"):
         return "oracle_unwrap"
-    if "A31" in t:
-        return "fee_multiply_ratio"
-    if "execute.rs:8" in t and "Multiplication overflow" in t:
-        return "fee_multiply_ratio"
-    if "Multiplication overflow" in t or "Denominator must not be zero" in t or ":overflow" in t or ":div0" in t:
-        if "uint128" in t or "A" in t:
-            return "ratio:" + t.split(" @ ")[-1][-40:]
-    if "A15" in t or "A17" in t or "A41" in t or "attempt to add with overflow" in t or "attempt to multiply with overflow" in t:
-        return "u64_overflow:" + t.split(" @ ")[-1][-40:]
-    return t.split(" @ ")[-1][-60:]
+    return "%s:%s" % (crate.split("-")[0] if crate else "?", loc)
 
 
 def m_oracle(hist, rec):
@@ -237,6 +244,11 @@ def m_ledgers(hist, rec):
     D = cfg(a)["protocol_chain_config"]["ibc_token_denom"]
     sb, sa = state(b), state(a)
     c = first_exec(rec)
+    if sa is None or sb is None or getattr(hist, "ghost_invalid", False):
+        # the State query itself fails (rate outside the representable range): the history has
+        # left the envelope; the ghost bookkeeping is not continued
+        hist.ghost_invalid = True
+        return
     if (ev["ev"] == "donate" or (ev["ev"] == "faucet" and ev["to"] == su.contract)) and rec["committed"]:
         d = ev["coin"]["denom"]
         g.donated[d] = g.donated.get(d, 0) + int(ev["coin"]["amount"])
@@ -578,4 +590,101 @@ def m_transfer_shape(hist, rec):
                 report(hist, "C07", "transfer_shape", {"branch": "fields"}, "malformed MsgTransfer %s" % m, rec)
 
 
-ALL = [m_flags, m_no_panic, m_oracle, m_ledgers, m_lifecycle, m_auth, m_recover, m_transfer_shape]
+def wellformed_problems(c, chain_prefix):
+    """independent statement of C14's well-formedness for an accepted configuration"""
+    import re
+    from . import refbech32
+    probs = []
+    nc, pc, fc = c["native_chain_config"], c["protocol_chain_config"], c["protocol_fee_config"]
+
+    def pref_ok(p):
+        return 1 <= len(p.encode()) <= 83 and all(33 <= b <= 126 for b in p.encode()) and p == p.lower()
+
+    def addr_ok(a, p):
+        d = refbech32.decode_any(a)
+        return d is not None and d[0] == p
+    for name, p in (("native account prefix", nc["account_address_prefix"]), ("validator prefix", nc["validator_address_prefix"]),
+                    ("protocol account prefix", pc["account_address_prefix"])):
+        if not pref_ok(p):
+            probs.append("%s %r is not a valid lower-case bech32 prefix" % (name, p))
+    for a in nc["validators"]:
+        if not addr_ok(a, nc["validator_address_prefix"]):
+            probs.append("validator %r not valid under its prefix" % a)
+    if len(set(nc["validators"])) != len(nc["validators"]):
+        probs.append("validator listed twice")
+    for k in ("staker_address", "reward_collector_address"):
+        if not addr_ok(nc[k], nc["account_address_prefix"]):
+            probs.append("%s %r not valid under the native prefix" % (k, nc[k]))
+    if not re.fullmatch(r"channel-[0-9]+", pc["ibc_channel_id"]):
+        probs.append("channel id %r is not channel-<n>" % pc["ibc_channel_id"])
+    d = pc["ibc_token_denom"]
+    if not (d.startswith("ibc/") and len(d[4:].encode()) == 64):
+        probs.append("staked denom %r is not ibc/ + 64 characters" % d)
+    if not re.fullmatch(r"[A-Za-z]{4,}", nc["token_denom"]):
+        probs.append("token denom %r not alphabetic" % nc["token_denom"])
+    return probs
+
+
+def m_config(hist, rec):
+    """C14: a section accepted by instantiate / UpdateConfig is well-formed; updates are sectional"""
+    c = first_exec(rec)
+    a, b = rec["after"], rec["before"]
+    if c is None or not rec["committed"] or b is None or cfg(b) is None:
+        return
+    var = variant(c["msg"])
+    ca, cb = cfg(a), cfg(b)
+    if var == "update_config":
+        m = c["msg"][var]
+        secs = {"native_chain_config": "native_chain_config", "protocol_chain_config": "protocol_chain_config",
+                "protocol_fee_config": "protocol_fee_config", "monitors": "monitors", "batch_period": "batch_period"}
+        for k, ck in secs.items():
+            if m.get(k) is None and ca[ck] != cb[ck]:
+                report(hist, "C14", "sectional", {"section": k}, "section %s changed without being supplied" % k, rec)
+        if ca["liquid_stake_token_denom"] != cb["liquid_stake_token_denom"] or ca["stopped"] != cb["stopped"]:
+            report(hist, "C14", "sectional", {"section": "denom_or_stopped"}, "UpdateConfig altered the LST denom or the halted flag", rec)
+        chk = dict(ca)
+        # only supplied sections are required to be well-formed by this update
+        probs = wellformed_problems(ca, hist.su.chain_prefix)
+        supplied = [k for k in secs if m.get(k) is not None]
+        relevant = []
+        for pmsg in probs:
+            if ("channel" in pmsg or "staked denom" in pmsg or "protocol account" in pmsg) and "protocol_chain_config" in supplied:
+                relevant.append(pmsg)
+            if ("validator" in pmsg or "staker" in pmsg or "reward" in pmsg or "native account" in pmsg or "token denom" in pmsg) and "native_chain_config" in supplied:
+                relevant.append(pmsg)
+        _ = chk
+        for pmsg in relevant:
+            report(hist, "C14", "wellformed", {"what": pmsg.split(" ")[0]}, "accepted configuration is malformed: " + pmsg, rec)
+        if m.get("monitors") is not None:
+            ms = ca["monitors"]
+            if len(set(ms)) != len(ms):
+                report(hist, "C14", "wellformed", {"what": "monitors"}, "monitor listed twice", rec)
+    if var in ("add_validator", "remove_validator"):
+        va, vb = ca["native_chain_config"]["validators"], cb["native_chain_config"]["validators"]
+        name = c["msg"][var].get("new_validator") or c["msg"][var].get("validator")
+        if var == "add_validator" and (va != vb + [name] or name in vb):
+            report(hist, "C14", "validator_change", {"variant": var}, "add_validator did not append exactly the named validator", rec)
+        if var == "remove_validator" and (name not in vb or sorted(va + [name]) != sorted(vb)):
+            report(hist, "C14", "validator_change", {"variant": var}, "remove_validator did not remove exactly the named validator", rec)
+        x, y = dict(ca), dict(cb)
+        x["native_chain_config"] = dict(x["native_chain_config"], validators=None)
+        y["native_chain_config"] = dict(y["native_chain_config"], validators=None)
+        if x != y:
+            report(hist, "C14", "validator_change", {"variant": var, "frame": True}, "validator change altered other configuration", rec)
+
+
+def m_boot_config(hist):
+    """C14 on the configuration accepted by instantiate"""
+    c = cfg(hist.dump)
+    if c is None:
+        return
+    for pmsg in wellformed_problems(c, hist.su.chain_prefix):
+        hist.findings.append({"property": "C14", "monitor": "wellformed", "signature": {"what": pmsg.split(" ")[0]},
+                              "what": "configuration accepted at instantiation is malformed: " + pmsg,
+                              "upto": len(hist.events), "event": hist.events[0]})
+    if not c["stopped"]:
+        hist.findings.append({"property": "C10", "monitor": "boot_halted", "signature": {}, "what": "new contract is not halted",
+                              "upto": len(hist.events), "event": hist.events[0]})
+
+
+ALL = [m_flags, m_config, m_no_panic, m_oracle, m_ledgers, m_lifecycle, m_auth, m_recover, m_transfer_shape]
